@@ -344,6 +344,9 @@ func detrestMultiImg(r *Rng, maxDim int) c06detImg {
 		m := c06detNew(w, h)
 		k := r.Range(1, 3)
 		step := r.Range(9, 16) * k
+		for (w/step+1)*(h/step+1) > 150 { // selectMultipleBestPatterns is cubic in the number of centres: keep it below ~150
+			step += k
+		}
 		for y := r.Range(0, 4); y+7*k <= h; y += step {
 			for x := r.Range(0, 4); x+7*k <= w; x += step {
 				kk := k
